@@ -123,7 +123,7 @@ def read_expr(src, skip_envs=(), tolerance=0, mode=MODE_NON_MATH):
             expr = TexCmd(name, args=args, position=c.position)
         return expr
     if c.category == TC.GroupBegin:
-        return read_arg(src, c, tolerance=tolerance)
+        return read_arg(src, c, tolerance=tolerance, mode=mode)
 
     assert isinstance(c, Token)
     return TexText(c)
